@@ -235,6 +235,16 @@ fn build(sc: &Scenario) -> Result<Obj, String> {
     build_with_bulk(sc, 1.0)
 }
 
+/// Setting a system up (bulk phase equilibria, initial profiles) can panic inside feos: the
+/// functionals unwrap the result of their bulk Helmholtz energy (functional_contribution.rs:45),
+/// which fails for trial states beyond the packing limit. That is not a solve and not judged.
+fn guarded<T>(f: impl FnOnce() -> Result<T, String>) -> Result<T, String> {
+    match std::panic::catch_unwind(std::panic::AssertUnwindSafe(f)) {
+        Ok(r) => r,
+        Err(_) => Err(format!("panic: {}", take_last_panic().unwrap_or_default())),
+    }
+}
+
 fn bulk_state(sc: &Scenario, bulk_factor: f64) -> Result<State<F>, String> {
     let sys = &pool().systems[sc.system % pool().systems.len()];
     let Kind::Pore { tf_bulk, rho_f, .. } = &sc.kind else { return Err("not a pore".into()) };
@@ -321,10 +331,14 @@ fn reference(sc: &Scenario, bulk_factor: f64) -> Option<RefObs> {
         return v.clone();
     }
     // one-shot reference: default solver from the canonical initial profile
-    let v = build_with_bulk(sc, bulk_factor).ok().and_then(|mut o| {
-        o.solve(None, false).ok()?;
-        o.observable()
-    });
+    let v = guarded(|| {
+        Ok(build_with_bulk(sc, bulk_factor).ok().and_then(|mut o| {
+            o.solve(None, false).ok()?;
+            o.observable()
+        }))
+    })
+    .ok()
+    .flatten();
     pool().memo.lock().unwrap().insert(key, v.clone());
     v
 }
@@ -342,14 +356,17 @@ fn interface_intact(i: &PlanarInterface<F>) -> bool {
     // dividing surface inside the middle half of the box
     let mid = 0.5 * (rl + rv);
     let k = rho.iter().position(|r| (*r - mid) * (a - mid) < 0.0).unwrap_or(0);
-    k > n / 4 && k < 3 * n / 4
+    // exactly one interface: a profile with a slab or bubble in between (three interfaces) is
+    // another stationary solution with three times the surface tension
+    let crossings = rho.iter().zip(rho.iter().skip(1)).filter(|(x, y)| (**x - mid) * (**y - mid) < 0.0).count();
+    crossings == 1 && k > n / 4 && k < 3 * n / 4
 }
 
 fn execute(sc: &Scenario) -> RunOutcome {
     let mut out = RunOutcome::default();
     let mut dg = Digest::default();
     let sys = &pool().systems[sc.system % pool().systems.len()];
-    let mut obj = match build(sc) {
+    let mut obj = match guarded(|| build(sc)) {
         Ok(o) => o,
         Err(e) => {
             out.count("probe.build_failed", 1);
@@ -413,7 +430,25 @@ fn execute(sc: &Scenario) -> RunOutcome {
                             // convergence, so that a listed finding does not hide a different one
                             let zeros = rho.iter().zip(p.external_potential.iter()).all(|(r, v)| r.is_finite() && (*r > 0.0 || *r == 0.0 || *v >= 49.0)) ;
                             let stage = last.map_or("default".to_string(), |s| format!("{}{}", ["picard", "anderson", "newton"][s.algo.min(2) as usize], if s.log { "-log" } else { "-linear" }));
-                            let sig = format!("density:{}:{stage}", if zeros { "exact-zeros" } else { "negative-or-non-finite" });
+                            // negative densities were seen for every kind of solver, but only for
+                            // heterosegmented functionals in cylindrical pores: that family is keyed by
+                            // the system, exact zeros by the stage that produced them
+                            let hetero = { use feos_core::Components; use feos_dft::HelmholtzEnergyFunctional; p.dft.component_index().len() > p.dft.components() };
+                            let geometry = match &sc.kind {
+                                Kind::Interface { .. } => "interface",
+                                Kind::Pore { geometry: 0, .. } => "slit",
+                                Kind::Pore { geometry: 1, .. } => "cylinder",
+                                Kind::Pore { .. } => "sphere",
+                            };
+                            let _ = &stage;
+                            let sig = if zeros {
+                                // reached through several kinds of stages (abs() after a Newton step,
+                                // underflow of exp() in a log-space Anderson step, kept by later stages):
+                                // keyed by the absorbing state itself
+                                "density:exact-zeros".to_string()
+                            } else {
+                                format!("density:negative-or-non-finite:{}:{geometry}", if hetero { "heterosegmented" } else { "homosegmented" })
+                            };
                             out.violate("density-invalid", &sig, format!("{}: {bad} grid points with non-finite or non-positive density after a successful solve (chain {chain:?})", what(i)));
                         }
                         if *debug {
@@ -472,7 +507,8 @@ fn execute(sc: &Scenario) -> RunOutcome {
                                     let d = got.iter().zip(want.iter()).map(|(a, b)| deviation(*a, *b, 1e-300)).fold(0.0, f64::max);
                                     out.max("moles_dev", d);
                                     if !(d <= 1e-8) {
-                                        out.violate("moles-mismatch", "moles", format!("{}: profile contains {got:?}, specified {want:?}", what(i)));
+                                        let sig = if spec_kind == 2 { "moles:moles-specification" } else { "moles:total-moles-specification" };
+                                        out.violate("moles-mismatch", sig, format!("{}: profile contains {got:?}, specified {want:?} (chain {chain:?})", what(i)));
                                     }
                                 }
                             }
@@ -581,7 +617,7 @@ fn execute(sc: &Scenario) -> RunOutcome {
             }
             Op::UpdateBulk { f } => {
                 if let Obj::Pore(p) = obj {
-                    match bulk_state(sc, *f) {
+                    match guarded(|| bulk_state(sc, *f)) {
                         Ok(b) => {
                             obj = Obj::Pore(Box::new(p.update_bulk(&b)));
                             bulk_factor = *f;
@@ -798,8 +834,8 @@ pub fn debug_replay(path: &str) {
     let rf: ReplayFile = serde_json::from_str(&std::fs::read_to_string(path).unwrap()).unwrap();
     let sc: Scenario = serde_json::from_value(rf.scenario).unwrap();
     let mut r = build(&sc).unwrap();
-    r.solve(None, false).unwrap();
-    println!("reference: obs {:?} residual {:?}", r.observable(), r.profile().residual(false).map(|x| x.2));
+    let rr = r.solve(None, false);
+    println!("reference: {:?} obs {:?} residual {:?}", rr.is_ok(), r.observable(), r.profile().residual(false).map(|x| x.2));
     let mut o = build(&sc).unwrap();
     for op in &sc.ops {
         if let Op::Solve { chain, debug } = op {
